@@ -15,7 +15,7 @@ def free_port():
     """a free loopback port from a range owned by this process (pid-derived), so that two worker processes of one check can
     never be handed the same port in the window between probing it and the server under test binding it"""
     import os
-    base = 20000 + (os.getpid() % 1000) * 40
+    base = 20000 + (os.getpid() % 300) * 40         # below the ephemeral range (32768+): a connect to a closed port there can self-connect
     for _ in range(40):
         p = base + _PORT["next"] % 40
         _PORT["next"] += 1
